@@ -264,6 +264,11 @@ def run_library_results_as_operands(chk, spec):
 			made = sales.window(over=["region", "product"], sum_over="amt")
 		else:
 			made = sales.aggregate(over=["region", "product"], sum_over="amt").inner_join(Table({"region": ["n", "s", "w"], "mgr": ["x", "y", "z"]}), "region", "region", expect="many_to_one")
+		if spec.get("handle_write"):
+			# ... and then written to through a column handle (the table object is not told): a key of another row is written over row 0's
+			kc = made.cols()[0]
+			if len(kc) > 1:
+				call(kc.__setitem__, 0, kc._underlying[len(kc) - 1])
 		names = made.column_names()
 		other_keys = {"unique": ["n", "s", "w"], "dup": ["n", "s", "n"], "partial": ["s", "q"]}[spec["other"]]
 		other = Table({"rg": list(other_keys), "oid": list(range(len(other_keys)))})
@@ -282,6 +287,47 @@ def run_library_results_as_operands(chk, spec):
 
 
 RUNNERS.update({"library_results_as_operands": run_library_results_as_operands})
+
+
+def run_directed_keys(chk, spec):
+	"""key shapes a shortcut can get wrong: composite text keys whose cells contain separator characters (joined with any separator two different tuples read alike),
+	bool keys with None (three values, not two), the None-padded key column of an earlier one_to_one left join"""
+	import warnings
+	what = spec["what"]
+	with warnings.catch_warnings():
+		warnings.simplefilter("ignore")
+		if what == "separator-text":
+			sep = spec["sep"]
+			lk = [["a" + sep + "b", "a", "x", "a"], ["c", "b" + sep + "c", "y", "b"]]
+			rk = [["a", "a" + sep + "b", "x" + sep, "q"], ["b" + sep + "c", "c", "y", sep + "y"]]
+			L = Table({"k1": lk[0], "k2": lk[1], "lid": [0, 1, 2, 3]})
+			R = Table({"r1": rk[0], "r2": rk[1], "rid": [10, 11, 12, 13]})
+			lon, ron = ["k1", "k2"], ["r1", "r2"]
+		elif what == "bool-with-none":
+			nk = spec["nkeys"]
+			import itertools
+			tuples = list(itertools.product([True, False, None], repeat=nk))[: 3 ** nk if spec["n"] == "all" else 2 ** nk + 1]
+			L = Table({**{f"k{j}": [t_[j] for t_ in tuples] for j in range(nk)}, "lid": list(range(len(tuples)))})
+			R = Table({**{f"r{j}": [t_[j] for t_ in reversed(tuples)] for j in range(nk)}, "rid": list(range(len(tuples)))})
+			lon, ron = [f"k{j}" for j in range(nk)], [f"r{j}" for j in range(nk)]
+			for T_, nm in ((L, "k0"), (R, "r0")):
+				if T_[nm].schema() is None or T_[nm].schema().kind is not bool:
+					chk.skip("bool-key-not-typed-bool")
+					return
+		else:
+			a = Table({"k": [1, 2, 3, 4], "p": ["a", "b", "c", "d"]})
+			b = Table({"rk": [1, 9], "q": ["x", "y"]})
+			made = a.join(b, "k", "rk", expect="one_to_one")       # rows 2, 3, 4 are unmatched: the result's rk column holds None three times
+			c = Table({"ck": [1, None, 7], "z": [0, 1, 2]})
+			if spec["side"] == "left":
+				L, R, lon, ron = made, c, ["rk"], ["ck"]
+			else:
+				L, R, lon, ron = c, made, ["ck"], ["rk"]
+		for how, expect in spec["calls"]:
+			judge_cell(chk, L, R, {"how": how, "expect": expect, "lon": lon, "ron": ron, "stratum": "cell-history", "variant": what, "key_mode": spec["key_mode"]})
+
+
+RUNNERS.update({"directed_keys": run_directed_keys})
 
 
 def realise(rng, lu, ru, variant, kind="int"):
@@ -391,8 +437,18 @@ def run(chk):
 		for side in ("right", "left"):
 			for other in ("unique", "dup", "partial"):
 				for key_mode in ("name", "vector"):
-					calls = [(rng.choice(HOWS), e) for e in rng.sample(EXPECTS, len(EXPECTS))]
-					chk.case("library_results_as_operands", {"source": source, "side": side, "other": other, "key_mode": key_mode, "calls": calls}, "cell-library-results")
+					for handle_write in (False, True):
+						calls = [(HOWS[(i + len(source)) % len(HOWS)], e) for i, e in enumerate(EXPECTS)]
+						chk.case("library_results_as_operands", {"source": source, "side": side, "other": other, "key_mode": key_mode, "calls": calls, "handle_write": handle_write}, "cell-library-results")
+	for key_mode in ("name", "vector"):
+		allcalls = [(h, e) for h in HOWS for e in EXPECTS]
+		for sep in ("\x1f", "\x00", "|", ",", "\t", " ", "\x1e", "/", "::"):
+			chk.case("directed_keys", {"what": "separator-text", "sep": sep, "calls": allcalls, "key_mode": key_mode}, "cell-directed-keys")
+		for nkeys in (1, 2):
+			for n in ("just-over-two-to-the-n", "all"):
+				chk.case("directed_keys", {"what": "bool-with-none", "nkeys": nkeys, "n": n, "calls": allcalls, "key_mode": key_mode}, "cell-directed-keys")
+		for side in ("left", "right"):
+			chk.case("directed_keys", {"what": "padded-key-of-one_to_one-left-join", "side": side, "calls": allcalls, "key_mode": key_mode}, "cell-directed-keys")
 	for how in HOWS:
 		_c09.repeated_key_cases(chk, how, 40 if chk.quick() else 300, expects=EXPECTS)
 	# key columns that differ only where hash() cannot tell (equal fingerprints), every fingerprint cached beforehand
